@@ -9,8 +9,13 @@ GenInit == Init /\ hist = <<obs>>
 GenNext == Next /\ hist' = Append(hist, obs')
 GenSpec == GenInit /\ [][GenNext]_<<vars, hist>>
 Bound == ntok <= MaxTok /\ Len(slots) <= MaxSlots
+\* the sweep over all handler results does not go on from tables with a snapshot handle (emit does not touch it)
+BoundF == Bound /\ snap.st = "none"
+\* thorough export: histories with a snapshot handle go one registration attempt less deep
+BoundT == Bound /\ (snap.st = "none" \/ ntok < MaxTok - 1)
 Skel  == <<kind, [i \in DOMAIN slots |-> IF slots[i].tok # 0 THEN slots[i].id ELSE Zero],
-           MaxOfIds({slots[i].id : i \in DOMAIN slots}), def, IF err > 0 THEN 1 ELSE err>>
+           MaxOfIds({slots[i].id : i \in DOMAIN slots}), def, IF err > 0 THEN 1 ELSE err,
+           snap.st, snap.kind, [i \in DOMAIN snap.slots |-> IF snap.slots[i].tok # 0 THEN snap.slots[i].id ELSE Zero]>>
 Emit  == PrintT(<<"BEHAV", ToJson(hist')>>)
 \* command words: "go"; one with an embedded NUL and a byte >= 128 ("g\0\310"); a longer one
 \* of that kind whose hash needs 64 bits ("s\0\310op")
